@@ -406,8 +406,14 @@ def branch_facts(tree, if_branch):
         raise Unsupported("if and IfExp tests are translated differently")
     boolean = t1 == "_handle_test"
     if boolean:
-        ht = ast.unparse(_fn(tree, "_handle_test"))
-        if "raise" not in ht or "not isinstance(condition, sympy.Symbol)" not in ht or "Boolean" not in ht:
+        htf = _fn(tree, "_handle_test")
+        ht = ast.unparse(htf)
+        # the local the translated test is kept in may have any name
+        loc = next((n.targets[0].id for n in htf.body if isinstance(n, ast.Assign) and len(n.targets) == 1
+                    and isinstance(n.targets[0], ast.Name) and isinstance(n.value, ast.Call)
+                    and _is_name(n.value.func, "_handle_expr")), None)
+        if (loc is None or "raise" not in ht or f"not isinstance({loc}, sympy.Symbol)" not in ht
+                or f"isinstance({loc}, sympy.logic.boolalg.Boolean)" not in ht or f"isinstance({loc}, bool)" not in ht):
             raise Unsupported("_handle_test: shape")
     return copies, checked, boolean, imports_copied
 
@@ -497,6 +503,42 @@ def expr_kinds(tree) -> list[str]:
     raise Unsupported("_handle_expr: does not end in raise")
 
 
+def entry_facts(tree) -> tuple[bool, bool]:
+    """two facts about the entry of `fn_to_sympy`: (1) a function object whose source is ANOTHER function's (a decorator
+    that wraps: `inspect.getsource` follows `__wrapped__`) is refused; (2) the free variables of a closure are bound to the
+    numbers in its cells (anything else refused) instead of being looked up among the module's constants"""
+    fn = _fn(tree, "fn_to_sympy")
+    tries = [n for n in fn.body if isinstance(n, ast.Try)]
+    if len(tries) != 1:
+        raise Unsupported("fn_to_sympy: try statement")
+    wrapped = False
+    for st in tries[0].body:
+        if isinstance(st, ast.If) and "unwrap" in ast.unparse(st.test):
+            if ast.unparse(st.test) == "inspect.unwrap(fn) is not fn" and any(
+                    isinstance(x, ast.Raise) and "NotImplementedError" in ast.unparse(x) for x in ast.walk(st)) \
+                    and tries[0].body.index(st) == 0:
+                wrapped = True
+            else:
+                raise Unsupported(f"fn_to_sympy: wrapped-function test {ast.unparse(st.test)!r}")
+    ctxs = [n for n in ast.walk(tries[0]) if isinstance(n, ast.Call) and _is_name(n.func, "Context")]
+    if len(ctxs) != 1:
+        raise Unsupported("fn_to_sympy: Context(...)")
+    sym = next((ast.unparse(k.value) for k in ctxs[0].keywords if k.arg == "symbols"), None)
+    plain = "{name: sympy.Symbol(name) for name in fn_args}"
+    if sym == plain:
+        closures = False
+    elif sym == "_closure_numbers(fn) | " + plain:
+        cn = ast.unparse(_fn(tree, "_closure_numbers"))
+        need = ["zip(code.co_freevars, cells, strict=True)", "cell.cell_contents", "NotImplementedError",
+                "isinstance(value, bool) or not isinstance(value, int | float)", "numbers[name] = sympy.Float(value)"]
+        if not all(x in cn for x in need):
+            raise Unsupported("_closure_numbers: shape")
+        closures = True
+    else:
+        raise Unsupported(f"fn_to_sympy: symbols = {sym}")
+    return wrapped, closures
+
+
 def lstr(s: str) -> str:
     return '"' + s.replace("\\", "\\\\").replace('"', '\\"') + '"'
 
@@ -512,6 +554,7 @@ def render(repo: Path) -> str:
     dnf = check_branch_dnf(tree) if checked else []
     ekinds = expr_kinds(tree)
     sig = sig_strict(tree)
+    wrapped_refused, closures_cells = entry_facts(tree)
     b = lambda x: "true" if x else "false"  # noqa: E731
     lines = [
         "-- GENERATED by /verif/translate/c06.py from src/mxlpy/meta/source_tools.py; do not edit",
@@ -534,6 +577,11 @@ def render(repo: Path) -> str:
         "def stmtKinds : List String := [" + ", ".join(lstr(k) for k in stmt_kinds) + "]",
         "/-- `_check_branch`: the accepting conditions (each a conjunction), in source order -/",
         "def checkBranchAccept : List (List CBAtom) := [" + ", ".join("[" + ", ".join("." + a for a in c) + "]" for c in dnf) + "]",
+        "",
+        "/-- `fn_to_sympy`: a function object whose source is another function's (`inspect.unwrap(fn) is not fn`) is refused -/",
+        f"def wrappedRefused : Bool := {b(wrapped_refused)}",
+        "/-- free variables are bound to the numbers in the closure's cells (anything else refused), not looked up in the module -/",
+        f"def closuresFromCells : Bool := {b(closures_cells)}",
         "",
         "def tables : Tables where",
         "  unops := unops",
